@@ -601,7 +601,7 @@ def main(argv):
                 groups.setdefault((h2.crate, h2.features), []).append(h2)
                 extra.append(h2)
         mine = mine + extra
-    per_harness_timeout = int(os.environ.get("VERIF_HARNESS_TIMEOUT", "900" if tier == "quick" else "3600"))
+    per_harness_timeout = int(os.environ.get("VERIF_HARNESS_TIMEOUT", "900" if tier == "quick" else "2400"))
     for (crate, feats), hs in sorted(groups.items(), key=lambda kv: (kv[0][0], kv[0][1] or "")):
         filters = sorted({h.name for h in hs})
         tag = "%s-%s-%s%s" % (prop, tier, crate, ("-" + feats.replace(",", "_")) if feats else "")
